@@ -6,6 +6,7 @@ import (
 	"os/exec"
 	"path/filepath"
 	"runtime"
+	"sort"
 	"strconv"
 	"strings"
 	"sync"
@@ -30,6 +31,16 @@ type e3Scenario struct {
 	NoWGAddPoints bool                   // WaitGroup.Add/Done are not scheduling points in this scenario
 	MaxSteps      int
 	BoundCap      int // > 0: explore this scenario only up to this preemption bound (value sweeps whose outcome does not depend on the schedule)
+
+	// StateKey, when set, makes the scenario eligible for the second, *unbounded* phase: a
+	// stateful depth-first search over every interleaving (no preemption bound) that stops
+	// expanding at states already visited. It returns the scenario's fingerprint of the shared
+	// state reachable outside hooked operations (sched.TrackState documents the rest of the key).
+	StateKey func(sys any) string
+	// CrossCheck: the scenario is small enough for a stateless search over every interleaving as
+	// well; the set of observed outcomes of that search must equal the stateful one's (this is
+	// how the state abstraction is validated against the implementation on every run).
+	CrossCheck bool
 }
 
 type e3Thread struct {
@@ -54,6 +65,17 @@ type e3Stats struct {
 	BoundCompleted     int
 	Truncated          bool
 	Outcomes           map[string]int64
+
+	// unbounded stateful phase
+	SfRan, SfComplete                       bool
+	SfStates, SfTransitions, SfExec, SfPrun int64
+	SfDepth                                 int
+	// stateless cross-check of the state abstraction (CrossCheck scenarios)
+	XRan, XOK bool
+	XExec     int64
+	XNodes    int64 // nodes of the full interleaving tree
+	XKeys     int64 // distinct state keys among them
+	XNote     string
 }
 
 // runOnce executes scenario sc under the schedule prefix.
@@ -98,10 +120,34 @@ func exploreScenario(r *report.Run, sc *e3Scenario, maxBound int, deadline time.
 		return st
 	}
 	reported := map[string]bool{}
-	for bound := 0; bound <= maxBound; bound++ {
+	phases := maxBound + 1
+	if sc.StateKey != nil && e3Unbounded {
+		phases++ // the unbounded stateful phase comes last
+	}
+	for ph := 0; ph < phases; ph++ {
+		bound := ph
 		d := &explore.DFS{Bound: bound, Deadline: deadline, MaxExec: maxExec}
+		stateful := ph > maxBound
+		if stateful {
+			d.Bound, d.Stateful, d.Visited = -1, true, map[string]struct{}{}
+			d.Deadline = time.Now().Add(e3UnboundedBudget)
+			if !deadline.IsZero() && d.Deadline.Before(deadline) {
+				d.Deadline = deadline.Add(e3UnboundedBudget / 2)
+			}
+			d.MaxExec = 0
+		}
 		d.Run = func(prefix []int) *sched.S {
-			x, sys := sc.runOnce(prefix)
+			if stateful {
+				sched.TrackState = true
+				defer func() { sched.TrackState, sched.StateKeyFn = false, nil }()
+			}
+			var x *sched.S
+			var sys any
+			if stateful {
+				x, sys = sc.runOnceKeyed(prefix)
+			} else {
+				x, sys = sc.runOnce(prefix)
+			}
 			x.Log = append(x.Log, "") // keep Log non-nil
 			d.Check = func(x *sched.S) {
 				var fails []e3Fail
@@ -201,6 +247,86 @@ func exploreScenario(r *report.Run, sc *e3Scenario, maxBound int, deadline time.
 			r.CapHit("harness nondeterminism in scenario " + sc.Name)
 			return st
 		}
+		if stateful && sc.CrossCheck && !d.Truncated && d.HarnessErr == "" {
+			// validate the abstraction: the same scenario, every interleaving, no state matching
+			sfOut := map[string]bool{}
+			for k := range st.Outcomes {
+				sfOut[k] = true
+			}
+			all := map[string]bool{}
+			type nodeInfo struct {
+				key string
+				out map[string]bool
+			}
+			nodes := map[string]*nodeInfo{} // node of the full interleaving tree (its choice prefix) -> state key, outcomes reachable below it
+			d2 := &explore.DFS{Bound: -1, Deadline: time.Now().Add(e3UnboundedBudget)}
+			d2.Run = func(prefix []int) *sched.S {
+				sched.TrackState = true
+				x, sys := sc.runOnceKeyed(prefix)
+				sched.TrackState, sched.StateKeyFn = false, nil
+				key := outcomeKey(x)
+				if _, ok := explore.HasPanic(x); ok || x.Deadlock || x.Livelock || len(poolFaults(x)) > 0 || len(sc.Check(sys, x)) > 0 {
+					key = "FAIL"
+				}
+				all[key] = true
+				var id strings.Builder
+				for i, p := range x.Trace {
+					n := nodes[id.String()]
+					if n == nil {
+						n = &nodeInfo{key: p.StateKey, out: map[string]bool{}}
+						nodes[id.String()] = n
+					}
+					n.out[key] = true
+					fmt.Fprintf(&id, "%d,", x.Trace[i].Chosen)
+				}
+				if sc.Teardown != nil {
+					sc.Teardown(sys)
+				}
+				return x
+			}
+			d2.Check = func(*sched.S) {}
+			d2.Explore()
+			st.XRan, st.XExec = true, d2.Executions
+			if d2.Truncated || d2.HarnessErr != "" {
+				st.XNote = "stateless cross-check not completed"
+			} else {
+				st.XOK = true
+				for k := range all {
+					if k != "FAIL" && !sfOut[k] {
+						st.XOK = false
+						st.XNote = "outcome seen by the stateless search but not by the stateful one: " + truncS(k, 200)
+					}
+				}
+				for k := range sfOut {
+					if !strings.HasPrefix(k, "FAIL:") && !all[k] {
+						st.XOK = false
+						st.XNote = "outcome seen by the stateful search but not by the stateless one: " + truncS(k, 200)
+					}
+				}
+				// same key => same future: all nodes of the full tree that carry one state key
+				// must have the same set of outcomes below them
+				byKey := map[string]string{}
+				for _, n := range nodes {
+					var outs []string
+					for o := range n.out {
+						outs = append(outs, o)
+					}
+					sort.Strings(outs)
+					sig := strings.Join(outs, "\x00")
+					if prev, ok := byKey[n.key]; ok && prev != sig {
+						st.XOK = false
+						st.XNote = "two nodes of the interleaving tree with one state key have different sets of reachable outcomes (the key merges states with different futures)"
+					}
+					byKey[n.key] = sig
+				}
+				st.XNodes, st.XKeys = int64(len(nodes)), int64(len(byKey))
+			}
+		}
+		if stateful {
+			st.SfRan, st.SfComplete = true, !d.Truncated
+			st.SfStates, st.SfTransitions, st.SfExec, st.SfPrun, st.SfDepth = int64(len(d.Visited)), d.Transitions, d.Executions, d.Pruned, d.MaxDepth
+			break
+		}
 		if d.Truncated {
 			st.Truncated = true
 			break
@@ -208,6 +334,30 @@ func exploreScenario(r *report.Run, sc *e3Scenario, maxBound int, deadline time.
 		st.BoundCompleted = bound
 	}
 	return st
+}
+
+// e3Unbounded switches the unbounded stateful phase on (set by the checks per tier);
+// e3UnboundedBudget is its wall-clock cap per scenario (a run that hits it reports the phase
+// as incomplete and still exits 0).
+var (
+	e3Unbounded       bool
+	e3UnboundedBudget = 60 * time.Second
+)
+
+// runOnceKeyed is runOnce with the scenario's shared-state fingerprint installed as
+// sched.StateKeyFn (the system only exists once Setup ran, hence the indirection).
+func (sc *e3Scenario) runOnceKeyed(prefix []int) (*sched.S, any) {
+	var sys any
+	sched.StateKeyFn = func() string {
+		if sys == nil {
+			return ""
+		}
+		return sc.StateKey(sys)
+	}
+	setup := sc.Setup
+	sc2 := *sc
+	sc2.Setup = func() any { sys = setup(); return sys }
+	return sc2.runOnce(prefix)
 }
 
 // poolFaults reports the pool-discipline marks the sync.Pool shim left in the execution log.
@@ -255,6 +405,10 @@ func runScenarios(c *Ctx, scs []*e3Scenario, maxBound int, perScenario time.Dura
 		scs = mine
 	}
 	distinct := 0
+	var sfScen, sfStates, sfTrans int64
+	var sfDone, sfOpen []string
+	var xchecks []map[string]any
+	xbad := false
 	minBound := 1 << 30
 	var samples int
 	for _, sc := range scs {
@@ -285,6 +439,28 @@ func runScenarios(c *Ctx, scs []*e3Scenario, maxBound int, perScenario time.Dura
 		for k := range st.Outcomes {
 			r.Distinct(sc.Name + "|" + k)
 		}
+		if st.SfRan {
+			sfScen++
+			sfStates += st.SfStates
+			sfTrans += st.SfTransitions
+			if st.SfComplete {
+				sfDone = append(sfDone, sc.Name)
+			} else {
+				sfOpen = append(sfOpen, sc.Name)
+			}
+			fmt.Printf("  scenario %-28s unbounded: states=%d transitions=%d executions=%d pruned=%d max_depth=%d complete=%v\n", sc.Name, st.SfStates, st.SfTransitions, st.SfExec, st.SfPrun, st.SfDepth, st.SfComplete)
+			r.AddStates(st.SfStates)
+			r.AddTransitions(st.SfTransitions)
+		}
+		if st.XRan {
+			fmt.Printf("  scenario %-28s abstraction cross-check: stateless executions=%d agree=%v %s\n", sc.Name, st.XExec, st.XOK, st.XNote)
+			xchecks = append(xchecks, map[string]any{"scenario": sc.Name, "stateless_executions_all_interleavings": st.XExec, "tree_nodes": st.XNodes, "distinct_state_keys": st.XKeys, "same_key_same_reachable_outcomes": st.XOK, "stateful_states": st.SfStates, "stateful_executions": st.SfExec, "same_outcome_set": st.XOK, "note": st.XNote})
+			if !st.XOK {
+				fmt.Printf("HARNESS-STATE-ABSTRACTION scenario=%s: %s\n", sc.Name, st.XNote)
+				r.CapHit("state abstraction cross-check failed or incomplete in scenario " + sc.Name + ": " + st.XNote)
+				xbad = true
+			}
+		}
 		if st.Truncated {
 			r.CapHit(fmt.Sprintf("scenario %s: execution/time cap hit while exploring preemption bound %d (bound %d completed)", sc.Name, st.BoundCompleted+1, st.BoundCompleted))
 		}
@@ -296,6 +472,13 @@ func runScenarios(c *Ctx, scs []*e3Scenario, maxBound int, perScenario time.Dura
 			r.Sample(map[string]any{"scenario": sc.Name, "what": sc.Desc, "schedules": st.Executions, "choice_points": st.Points, "distinct_outcomes": len(st.Outcomes), "preemption_bound_completed": st.BoundCompleted})
 		}
 		fmt.Printf("  scenario %-28s schedules=%-8d points=%-9d outcomes=%-4d bound_completed=%d truncated=%v\n", sc.Name, st.Executions, st.Points, len(st.Outcomes), st.BoundCompleted, st.Truncated)
+	}
+	if sfScen > 0 {
+		if xbad {
+			sfOpen, sfDone = append(sfOpen, sfDone...), nil // nothing the stateful phase says is believed
+		}
+		r.Set("unbounded_stateful_phase", map[string]any{"abstraction_cross_checks": xchecks, "scenarios": sfScen, "states": sfStates, "transitions": sfTrans, "all_interleavings_completed": sfDone, "stopped_at_time_cap": sfOpen,
+			"note": "second phase after the preemption-bounded one: depth-first search over EVERY interleaving of the scenario (no preemption bound), not expanding a state twice; state key = per thread (labels of the points reached, values observed at atomic loads, environment answers, own log lines, parked-at operation) + hash of the ordered observation log + identity of every published snapshot and whether it still has the fingerprint it was published with; complete = every reachable state of the scenario was expanded and every maximal execution not cut at an already-expanded state was checked by the oracles; a scenario stopped at the time cap is not a failure"})
 	}
 	r.Set("preemption_bound_completed_all_scenarios", minBound)
 	r.Set("preemption_bound_target", maxBound)
